@@ -402,6 +402,12 @@ func (db *DB) get(in Object) (out Object, err error) {
 		}
 	}
 
+	// an object without uuid has no file: its path would be the bare extension,
+	// or the collection directory itself when the extension is empty
+	if in.UUID() == "" {
+		return in, fmt.Errorf("%w: object has no uuid", fs.ErrNotExist)
+	}
+
 	path = filepath.Join(db.oDir(in), s.filename(in))
 	err = unmarshalJsonFile(path, in)
 	out = in
